@@ -192,7 +192,7 @@ class Interp(object):
         is_gen = getattr(fnode, "_is_gen", None)
         if is_gen is None:
             is_gen = fnode._is_gen = any(isinstance(n, (ast.Yield, ast.YieldFrom)) for n in ast.walk(fnode))
-        if is_gen:
+        if is_gen and not getattr(self, "eager_generators", False):
             raise Unsupported("generator function %s (needs a stub)" % func.fullname)
         frame = {}
         a = fnode.args
@@ -237,7 +237,10 @@ class Interp(object):
             self.cur_func = saved[0]
         res = []
         for (s, kind, val) in outs:
-            s.frames.pop()
+            fr = s.frames.pop()
+            if is_gen and kind in ("next", "return"):
+                # eager generator: the values it yields, as a tuple
+                kind, val = "return", tuple(fr.get("@yield", ()))
             if self.on_return is not None:
                 self.on_return(func, s, kind, val)
             if kind == "next":
@@ -857,8 +860,67 @@ class Interp(object):
 
     def s_FunctionDef(self, st, node):
         # nested function: a closure object (attributes can be attached to it)
-        st.frames[-1][node.name] = st.alloc(HObj("function", {"__name__": node.name}, kind="closure", label="closure " + node.name))
+        st.frames[-1][node.name] = self.make_closure(st, node, node.name)
         return [(st, "next", None)]
+
+    def make_closure(self, st, node, name):
+        """nested def / lambda: code + a snapshot of the defining frame (captured by value)."""
+        if not hasattr(self, "closure_nodes"):
+            self.closure_nodes = {}
+        self.closure_nodes[id(node)] = (node, self.cur_func)
+        env = {k: v for k, v in st.frames[-1].items() if not k.startswith("@")}
+        return st.alloc(HObj("function", {"__name__": name, "@node": id(node), "@env": tuple(sorted(env.items(), key=lambda kv: kv[0]))},
+                             kind="closure", label="closure " + name))
+
+    def call_closure(self, st, ref, args, kwargs, node):
+        o = st.obj(ref)
+        info = getattr(self, "closure_nodes", {}).get(o.fields.get("@node"))
+        if info is None:
+            return [(st, "val", Top("closure-call", False))]
+        cnode, owner = info
+        a = cnode.args
+        params = [p.arg for p in a.posonlyargs + a.args]
+        frame = dict(o.fields.get("@env", ()))
+        frame[o.fields.get("__name__")] = ref
+        if len(args) > len(params) and not a.vararg:
+            raise Unsupported("too many args for closure %s" % o.fields.get("__name__"))
+        for p, v in zip(params, args):
+            frame[p] = v
+        if a.vararg:
+            frame[a.vararg.arg] = tuple(args[len(params):])
+        for p in params[len(args):]:
+            if p in kwargs:
+                frame[p] = kwargs[p]
+        nd = len(a.defaults)
+        for i, d in enumerate(a.defaults):
+            p = params[len(params) - nd + i]
+            if p not in frame or (p not in kwargs and params.index(p) >= len(args)):
+                if p not in kwargs and params.index(p) >= len(args):
+                    frame[p] = self.const_default(d, owner.module if owner else None)
+        st.frames.append(frame)
+        saved = self.cur_func
+        self.cur_func = owner
+        self.depth += 1
+        try:
+            if isinstance(cnode, ast.Lambda):
+                outs = [(s, "return" if k == "val" else k, v) for (s, k, v) in self.eval(st, cnode.body)]
+            else:
+                outs = self.exec_block(st, cnode.body)
+        finally:
+            self.depth -= 1
+            self.cur_func = saved
+        res = []
+        for (s, k, v) in outs:
+            s.frames.pop()
+            if k == "next":
+                res.append((s, "val", None))
+            elif k == "return":
+                res.append((s, "val", v))
+            elif k == "raise":
+                res.append((s, "raise", v))
+            else:
+                raise Unsupported("%s escaped closure" % k)
+        return res
 
     def s_ClassDef(self, st, node):
         st.frames[-1][node.name] = ("localclass", node.name)
